@@ -73,10 +73,14 @@ def main():
         sh(f"git -C {REPO} worktree remove --force {wt}")
     ok = result["demo_without_change"]["exit"] == 0 and result["suite_with_change"]["exit"] == 0 and result["suite_with_change"]["passed"] >= 287 and result["demo_with_change"]["exit"] != 0
     result["confirmed"] = ok
+    fired = {}
+    if "--no-repo" in sys.argv:
+        # parallel confirmation phase: the static checks are run afterwards
+        # (tools/seed_repo_checks.py applies each kept patch to /repo in turn)
+        return _finish(result, ok, fired, sid, prop, n, diff, demo, src)
     # static checks on /repo + patch
     rc, out = sh(f"git -C {REPO} status --porcelain")
     assert not out.strip(), "/repo is dirty"
-    fired = {}
     try:
         rc, out = sh(f"git -C {REPO} apply {diff}")
         assert rc == 0, out
@@ -92,6 +96,10 @@ def main():
         # restore evidence of the clean tree for the checks that fired
         for pid in fired:
             sh(f"./check {pid}", cwd=VERIF)
+    return _finish(result, ok, fired, sid, prop, n, diff, demo, src)
+
+
+def _finish(result, ok, fired, sid, prop, n, diff, demo, src):
     result["checks_fired"] = fired
     result["detected_by_own_property"] = prop in fired and fired[prop]["exit"] == 1
     print(json.dumps(result, indent=1))
